@@ -23,6 +23,11 @@ func (v Items) ToBytes() []byte {
 			msg = append(msg, itemB)
 		}
 	}
+
+	if len(msg) == 0 {
+		return nil
+	}
+
 	return joinBody(msg...)
 }
 
